@@ -26,6 +26,8 @@ const (
 	c12NameK = 0x300 // "k" (fresh name / index key)
 	c12Huge  = 0x340 // a length word of 2^40 with no data behind it
 	c12NameU = 0x360 // "u"
+	c12NameH = 0x3a0 // "h"
+	c12NameG = 0x3e0 // "g"
 )
 
 func c12Prefix() []byte {
@@ -36,6 +38,8 @@ func c12Prefix() []byte {
 	p.Mem = append(p.Mem, gen.StrWords(c12NameT, []byte("t"))...)
 	p.Mem = append(p.Mem, gen.StrWords(c12NameK, []byte("k"))...)
 	p.Mem = append(p.Mem, gen.StrWords(c12NameU, []byte("u"))...)
+	p.Mem = append(p.Mem, gen.StrWords(c12NameH, []byte("h"))...)
+	p.Mem = append(p.Mem, gen.StrWords(c12NameG, []byte("g"))...)
 	p.Mem = append(p.Mem, gen.MemWrite{Off: c12Huge, Word: common.Hash(new(uint256.Int).Lsh(uint256.NewInt(1), 40).Bytes32())})
 	p.Steps = []gen.JStep{
 		gen.RegisterValueVar(c12NameX, uint256.NewInt(0), 0, gen.TypeA),
@@ -43,12 +47,24 @@ func c12Prefix() []byte {
 		gen.RegisterRefVar(c12NameM, uint256.NewInt(2), gen.TypeB),
 		gen.RegisterRefVar(c12NameT, uint256.NewInt(4), gen.TypeA),
 		gen.RegisterRefVar(c12NameU, uint256.NewInt(5), gen.TypeA),
+		gen.RegisterValueVar(c12NameH, c12Hashed, 0, gen.TypeA),
+		gen.RegisterRefVar(c12NameG, c12Hashed2, gen.TypeA),
 	}
 	return p.Body()
 }
 
+// hashed slot numbers (mapping / dynamic-array members, EIP-1967 style slots)
+var (
+	c12Hashed  = u256(common.HexToHash("0x360894a13ba1a3210667c828492db98dca3e2076cc3735a920a3ca505d382bbc"))
+	c12Hashed2 = u256(common.HexToHash("0xb53127684a568b3173ae13b9f8a6016e243e63b6e8ee1178d6a717850b5d6103"))
+)
+
 func c12Storage() map[common.Hash]common.Hash {
 	m := c12StorageBase()
+	m[common.Hash(c12Hashed.Bytes32())] = gen.Pattern
+	for k, v := range gen.EncodeString(c12Hashed2, []byte("hashed")) {
+		m[k] = v
+	}
 	for k, v := range gen.EncodeString(uint256.NewInt(5), gen.PatternBytes(40)) { // out-of-place string
 		m[k] = v
 	}
@@ -92,6 +108,13 @@ func c12Steps() []c12Step {
 		{"VVJNAL empty", s(0xe6, n(0), n(0), n(0), A), true},
 		{"VRJNAL short", s(0xe7, n(1), A), true},
 		{"VRJNAL long", s(0xe7, n(5), A), true},
+		{"RSVJNAL slot 4096", s(0xe0, n(c12NameK), n(4096), A), true},
+		{"RSVJNAL hashed slot", s(0xe0, n(c12NameK), u256(common.HexToHash("0xc2575a0e9e593c00f959f8c92f12db2869c3395a3b0502d05e2516446f71f85b")), A), true},
+		{"VSVJNAL hashed slot", s(0xe1, n(c12NameK), u256(common.HexToHash("0xc2575a0e9e593c00f959f8c92f12db2869c3395a3b0502d05e2516446f71f85b")), n(2), B), true},
+		{"IRVVJNAL hashed slot", s(0xe2, n(2), u256(common.HexToHash("0xc2575a0e9e593c00f959f8c92f12db2869c3395a3b0502d05e2516446f71f85b")), n(c12NameK), n(0), A, B), true},
+		{"IVVRJNAL hashed slot and key", s(0xe5, n(2), u256(common.HexToHash("0xc2575a0e9e593c00f959f8c92f12db2869c3395a3b0502d05e2516446f71f85b")), new(uint256.Int).SetAllOne(), A, B), true},
+		{"VVJNAL hashed slot", s(0xe6, c12Hashed, n(0), n(32), A), true},
+		{"VRJNAL hashed slot", s(0xe7, c12Hashed2, A), true},
 		// malformed
 		{"VVJNAL off32", s(0xe6, n(0), n(32), n(0), A), false},
 		{"VVJNAL off31 width32", s(0xe6, n(0), n(31), n(32), A), false},
@@ -201,6 +224,9 @@ func stripField(l, key string) string {
 // other cases are compared with it (the property fixes constancy, not a number).
 var c12Fee = func() uint64 {
 	st := c12Steps()[9] // VVJNAL full
+	if st.Name != "VVJNAL full" {
+		panic("c12: canonical step moved")
+	}
 	code, _ := gen.BuildSeqIns(world.Shanghai, nil, nil, 1, c12Prefix(), 0, gen.StepCode(st.Step))
 	cs := gen.StdCase(world.Shanghai, code, "call", 300000)
 	cs.Accounts[1].Storage = c12Storage()
